@@ -152,7 +152,7 @@ func strictlyInside(p, c, d bv) bool {
 }
 
 var (
-	bound     = s2.VerifIntersectionError() // 8 * dblError
+	bound     = 0x1p-50 // the property's bound: 8 * 2^-53 rad (NOT read from the code under test)
 	margin    = 1e-6
 	maxSinSt  float64
 	maxSinEx  float64
@@ -506,6 +506,11 @@ func run(c *vkit.Collector, rng *vkit.Rng, budget int) {
 	// constants the translation replaced by literals / the oracle uses
 	c.Check("roundingEpsilon(float64) = 2^-53", vkit.App("fbiteq", vkit.F(s2.VerifRoundingEpsilon()), "(0x1p-53)%float"))
 
+	c.Check("intersectionError = 8*dblError", vkit.App("fbiteq", vkit.F(s2.VerifIntersectionError()), "(0x1.ffffffffffffcp-51)%float"))
+	if !(s2.VerifIntersectionError() <= bound) {
+		violate(c, "intersectionError.constant", "the acceptance threshold of the stable path exceeds the documented 8*2^-53", s2.VerifIntersectionError())
+	}
+
 	fullEvery := 1
 	emit := func(class string, q quad) bool {
 		if s2.CrossingSign(q[0], q[1], q[2], q[3]) != s2.Cross {
@@ -532,6 +537,11 @@ func run(c *vkit.Collector, rng *vkit.Rng, budget int) {
 	emit("corpus:collinear-0,0.2/0.1,0.3", quad{s2.Point{Vector: circ(0)}, s2.Point{Vector: circ(0.2)}, s2.Point{Vector: circ(0.1)}, s2.Point{Vector: circ(0.3)}})
 	emit("corpus:collinear-tiny", quad{P(hx("-0x1.a247fd5a21685p-752"), 0, 1), P(hx("-0x1.eaaac319bda5bp-750"), 0, 1), P(hx("0x1.041b86a6aeeep-749"), 0, 1), P(hx("-0x1.3208700fb21bp-751"), 0, 1)})
 	emit("corpus:collinear-tiny", quad{P(-1, hx("-0x1.5857873480b53p-974"), 0), P(-1, hx("0x1.40638f5ca5d59p-971"), 0), P(-1, hx("0x1.a7ef04494eb83p-977"), 0), P(-1, hx("-0x1.0756600653c4cp-972"), 0)})
+	emit("corpus:threshold-rejected(9.25*dblError)", quad{
+		P(hx("-0x1.cf12b00871e7ap-01"), hx("-0x1.0a5a922fb81aap-02"), hx("-0x1.5a3e9718142dep-02")),
+		P(hx("-0x1.1b1a2d5ef2ff3p-01"), hx("-0x1.823bfec4d882bp-01"), hx("0x1.6a5399efba4f5p-02")),
+		P(hx("-0x1.ad84c3aae6182p-01"), hx("-0x1.13cb0de1eb61p-01"), hx("-0x1.3f96944803428p-04")),
+		P(hx("-0x1.6d87778935d1ap-01"), hx("-0x1.34f99f1216938p-01"), hx("0x1.6baf8b33bfe12p-02"))})
 	emit("corpus:antipode(known)", quad{
 		P(hx("0x1.95909c3e8f0fep-01"), hx("-0x1.f2a763749576p-02"), hx("-0x1.78d0655c03954p-02")),
 		P(hx("-0x1.95909c3e9063dp-01"), hx("0x1.f2a76374960d6p-02"), hx("0x1.78d0655bfd158p-02")),
